@@ -726,6 +726,11 @@ func eventTypeOfBlock(b *ssa.BasicBlock) string {
 
 func c09R4(r *Report) {
 	p := r.P
+	// the peer loop answers queries and reports to the torrent with copies of its bitmap and lists
+	stateRefsSent(r, "R4", func(f *ssa.Function) bool { return relPkg(f) == "peer" },
+		func(t types.Type) bool { return typeIs(derefType(t), modPath+"/peer", "Peer") }, 2)
+	stateRefsSent(r, "R4", func(f *ssa.Function) bool { return relPkg(f) == "tor" },
+		func(t types.Type) bool { return typeIs(derefType(t), modPath+"/tor", "Torrent") }, 1)
 	bm := p.Field("peer", "Peer", "bitmap")
 	if !r.Anchor("R4", "peer.Peer.bitmap", bm != nil) {
 		return
